@@ -19,6 +19,7 @@
    Proofs/, followed by Print Assumptions; plus pins and examples. *)
 From RM Require Import Model.EncPathSpec Model.HitObjectSpec Proofs.EncPathRT Proofs.EncPathImage Proofs.EncSlider Proofs.EncLineImage Proofs.EncMapImage.
 From RM Require Import Model.EncObjCarry Proofs.EncObjectsRT.
+From RM Require Import Proofs.TimingPointsValues Proofs.Enc2Values Proofs.Enc2Samples Proofs.Enc2Examples.
 From RM Require Import Model.EncSpec Proofs.EncFmt Proofs.EncShape Proofs.EncSimple Proofs.EncImage Proofs.EncObjects Proofs.EncRound Proofs.EncTiming.
 From RM Require Import Gen.Generated.
 Open Scope Z_scope.
@@ -386,8 +387,9 @@ Print Assumptions C04_decoded_objects_image.
 (* "every non-blank line of [HitObjects] is accepted", for decoded maps: whatever the input,
    if the objects of the decoded map are outside the recorded classes -- [residual]: D13 / D17 /
    consecutive Catmull, D21 (written length), D26 (end time) -- and carry representable sample
-   data ([sample_ok]: not mechanised for the decoder's image), then every line the encoder
-   writes for them is accepted in every parser state and adds one object with the same start time *)
+   data ([sample_ok]; discharged below: C04_decoded_hit_object_lines_accepted_classes), then every
+   line the encoder writes for them is accepted in every parser state and adds one object with
+   the same start time *)
 Theorem C04_decoded_hit_object_lines_accepted :
   forall fmt_f64 fmt_f32 fmt_int, fmt_ok fmt_f64 fmt_f32 fmt_int -> fmt_f32_int fmt_f32 fmt_int ->
   forall dist lines m mode ls,
@@ -400,6 +402,90 @@ Proof.
   exact (decoded_hit_object_lines_accepted f64 f32 fi Hfmt H32 dist lines m mode ls H1 H2 H3).
 Qed.
 Print Assumptions C04_decoded_hit_object_lines_accepted.
+
+(* ---------- the sample data of decoded maps ---------- *)
+(* [sample_img s]: custom index and volume within the i32 parse limits, the bank an enum value, a
+   file name free of `,` `:` "//" and line feeds -- [sample_ok] without "the file name does not end
+   in white space".  It holds of every sample of every hit object and of every slider node of every
+   decoded map, whatever the input lines (a line is a piece between two line feeds): carried through
+   read_custom_sample_banks / convert_sound_type, the stable sort, the break post-processing and
+   SamplePoint::apply in the per-object loop (with the sample points' banks and custom indices
+   carried through the [TimingPoints] parser). *)
+Theorem C04_decoded_samples_image :
+  forall dist lines m,
+  Forall no_lf_line lines -> decode_beatmap dist lines = Done m ->
+  Forall (fun h => obj_simg h = true) (hov_hit_objects (bmv_ho m)).
+Proof. exact decoded_samples_img. Qed.
+Print Assumptions C04_decoded_samples_image.
+
+(* [sample_ok] is exactly [sample_img] outside class D30 *)
+Theorem C04_sample_ok_iff :
+  forall s, sample_ok s = true <-> (sample_img s = true /\ d30_sample s = false).
+Proof. intros s. split; [exact (sample_ok_img s)|intros [H1 H2]; exact (sample_img_ok s H1 H2)]. Qed.
+Print Assumptions C04_sample_ok_iff.
+
+(* "every non-blank line of [HitObjects] is accepted", for decoded maps, with NO hypothesis left
+   that is not a recorded finding class: [residual_classes] = outside D30 (sample file name ending
+   in white space), D13 / D17 / consecutive Catmull, D21 (written length), D26 (end time) *)
+Theorem C04_decoded_hit_object_lines_accepted_classes :
+  forall fmt_f64 fmt_f32 fmt_int, fmt_ok fmt_f64 fmt_f32 fmt_int -> fmt_f32_int fmt_f32 fmt_int ->
+  forall dist lines m mode ls,
+  Forall no_lf_line lines -> decode_beatmap dist lines = Done m ->
+  Forall (residual_classes dist) (hov_hit_objects (bmv_ho m)) ->
+  object_lines dist mode (hov_hit_objects (bmv_ho m)) = Done ls ->
+  Forall2 (fun h l => ho_accepted fmt_f64 fmt_f32 fmt_int (h_start h) l) (hov_hit_objects (bmv_ho m)) ls.
+Proof.
+  intros f64 f32 fi Hfmt H32 dist lines m mode ls H0 H1 H2 H3.
+  exact (decoded_hit_object_lines_accepted_classes f64 f32 fi Hfmt H32 dist lines m mode ls H0 H1 H2 H3).
+Qed.
+Print Assumptions C04_decoded_hit_object_lines_accepted_classes.
+
+(* D30 (known finding): the remaining clause of [sample_ok] is NOT an invariant.  A file name that is
+   followed by further text on its line keeps trailing white space; the encoder writes it at the
+   end of the line and the decoder trims it: the four lines of [d30_text] are accepted on re-read
+   but carry other sample names (a name of white space only comes back as the normal sample). *)
+Theorem C04_sample_name_trimmed_refuted :
+  match round_trip d30_text with
+  | Done (m1, m2) =>
+      forallb obj_simg (hov_hit_objects (bmv_ho m1)) = true /\
+      map d30_class (hov_hit_objects (bmv_ho m1)) = [true; true; true; true] /\
+      map (fun h => object_image h) (hov_hit_objects (bmv_ho m1)) = [true; true; true; true] /\
+      name_dump m1 = [[1 :: dump_str (lit "a.wav ")]; [1 :: dump_str (lit "b.wav ")];
+                      [1 :: dump_str (lit "c.wav ")]; [1 :: dump_str (lit " ")]] /\
+      name_dump m2 = [[1 :: dump_str (lit "a.wav")]; [1 :: dump_str (lit "b.wav")];
+                      [1 :: dump_str (lit "c.wav")]; [[0; nm_normal]]]
+  | _ => False
+  end.
+Proof. exact d30_witness. Qed.
+Print Assumptions C04_sample_name_trimmed_refuted.
+
+Theorem C04_decoded_sample_ok_refuted :
+  exists text m, Forall no_lf_line (lines_of_text text) /\ decode_beatmap stub_dist (lines_of_text text) = Done m /\
+                 existsb (fun h => negb (forallb sample_ok (h_samples h))) (hov_hit_objects (bmv_ho m)) = true.
+Proof. exact decoded_sample_ok_refuted. Qed.
+Print Assumptions C04_decoded_sample_ok_refuted.
+
+(* non-vacuity: a decoded file with file names, additions, a spinner and a hold is in the image and
+   outside D30 *)
+Example C04_samples_image_example :
+  match decode_beatmap stub_dist (lines_of_text rt_text) with
+  | Done m => forallb obj_simg (hov_hit_objects (bmv_ho m)) = true /\
+              existsb d30_class (hov_hit_objects (bmv_ho m)) = false /\
+              forallb (fun h => forallb sample_ok (h_samples h)) (hov_hit_objects (bmv_ho m)) = true /\
+              length (hov_hit_objects (bmv_ho m)) = 6%nat
+  | _ => False
+  end.
+Proof. exact samples_img_example. Qed.
+
+(* the sample points of decoded maps (what SamplePoint::apply copies into the samples), and the
+   other control points: values within their clamps / the parse limits, finite times *)
+Theorem C04_decoded_control_point_ranges :
+  forall dist lines m, decode_beatmap dist lines = Done m ->
+  let c := hov_control_points (bmv_ho m) in
+  Forall good_tp (cp_timing c) /\ Forall good_dp (cp_difficulty c) /\
+  Forall range_ep (cp_effect c) /\ Forall range_sp (cp_sample c).
+Proof. exact decoded_cp_ranges. Qed.
+Print Assumptions C04_decoded_control_point_ranges.
 
 (* D26 (known finding): [object_ok] does not hold of every decoded spinner / hold -- the end time
    start + duration can exceed the parse limit by rounding; the line is then rejected in every
@@ -460,11 +546,14 @@ Print Assumptions C04_timing_line_accepted.
      (C04_hit_object_lines_accepted) and for every decoded map whose objects satisfy [residual]
      (C04_decoded_hit_object_lines_accepted): start time, position, combo offset, control points,
      repeat count, node count and explicit length are proved of every object of every decoded
-     map (C04_accepted_line_object_image, C04_decoded_objects_image).  NOT mechanised:
-     [sample_ok] of the processed samples (custom index / volume within i32, file names free of
-     `,` `:` `//`).  Not invariants at all (recorded classes, hypotheses of [residual]): start +
-     duration within the parse limits (D26), the computed length of a slider without explicit
-     length (D21), D13 / D17 / consecutive Catmull (C02).
+     map (C04_accepted_line_object_image, C04_decoded_objects_image), and so is the sample data
+     (C04_decoded_samples_image: custom index / volume within i32, bank an enum value, file names
+     free of `,` `:` `//` and line feeds), so that for decoded maps the hypothesis is reduced to
+     the recorded classes only (C04_decoded_hit_object_lines_accepted_classes).  Not invariants
+     at all (recorded classes, the clauses of [residual_classes]): a sample file name ending in
+     white space (D30, new: C04_sample_name_trimmed_refuted), start + duration within the parse
+     limits (D26), the computed length of a slider without explicit length (D21), D13 / D17 /
+     consecutive Catmull (C02).
      T04c in full for hit objects (samples up to carry): C02's T02b.
    Covered by the `enc` correspondence (slider files included, curve and slider-event models
    connected) and by the C04 / C02 oracles (each encoded hit-object line is parsed, kind and
